@@ -376,6 +376,10 @@ MODULE_SPECS = [
     [('TestA', True, None, [('test_a1', False)]),
      ('TestB', False, 0, [('test_b1', False)])],          # B inherits A's class tag
     [('TestA', False, None, [])],
+    # a tagged class that also has tagged methods: the class tag still selects all of its tests
+    [('TestA', True, None, [('test_a1', True), ('test_a2', False), ('test_a3', False)]),
+     ('TestB', False, None, [('test_b1', True), ('test_b2', False)]),
+     ('TestC', True, 1, [('test_c1', False)])],
     [('TestA', False, None, [('test_a1', True)]),
      ('TestB', False, None, [('test_b1', True)]),
      ('TestC', False, None, [('test_c1', False)])],
